@@ -21,7 +21,7 @@ HARNESSES = [
     H("c20_skip_stacks::c20_scan_len32_off5", desc="4 words, offset 5", tier="thorough"),
     H("c20_skip_stacks::c20_incl_serve16_off0", loops=L, desc="fill_thread_stack inclusion, 16-byte copy"),
     H("c20_skip_stacks::c20_incl_serve24_off8", loops=L, desc="fill_thread_stack inclusion, SP 8 bytes into the page"),
-    H("c20_skip_stacks::c20_incl_serve24_off5", loops=L, desc="fill_thread_stack inclusion, unaligned SP", tier="thorough"),
+    H("c20_skip_stacks::c20_incl_serve24_off5", loops=L, desc="fill_thread_stack inclusion, unaligned SP (offset 5 into the page)"),
     H("c20_skip_stacks::c20_incl_no_principal", loops=L, desc="skipping on but no principal mapping resolved: every stack dropped",
       expect_unsat_covers=("kept because of a stack word", "kept because of the instruction pointer")),
 ]
